@@ -187,8 +187,8 @@ def mutate(rng, wf, kind):
         raise ValueError(kind)
     if not _fix(sp, prof):
         return None
-    flow, _ = render_flow(wf, sp, prof, runahead)
-    return flow
+    flow, mentioned = render_flow(wf, sp, prof, runahead)
+    return flow, mentioned
 
 
 KINDS = ['same', 'add_sink', 'add_source', 'add_dep', 'add_dep', 'del_task', 'del_task', 'del_line', 'runahead',
@@ -200,14 +200,16 @@ def gen_variants(rng, wf, opts=None):
     # the re-rendering must reproduce the text the case starts from
     flow0, _ = render_flow(wf, wf['spec'], wf['prof'], wf['runahead'])
     assert flow0 == wf['flow'], 'genreload.render_flow is out of step with gen.gen_workflow'
-    out = [{'tag': 'same', 'flow': wf['flow']}]
+    out = [{'tag': 'same', 'flow': wf['flow'], 'tasks': list(wf['tasks'])}]
     kinds = opts.get('variant_kinds') or KINDS
     for _ in range(opts.get('n_variants', 5)):
         kind = rng.choice(kinds)
-        flow = mutate(rng, wf, kind)
-        if flow is None:
+        res = mutate(rng, wf, kind)
+        if res is None:
             continue
+        flow, mentioned = res
         if flow == wf['flow']:
             kind = 'same'
-        out.append({'tag': kind, 'flow': flow})
+        # ('tasks': the tasks of the definition - the policy can aim a reload at the definition of a started task)
+        out.append({'tag': kind, 'flow': flow, 'tasks': mentioned})
     return out
